@@ -814,6 +814,17 @@ static void worker_main(int w, int64_t only_case)
         fd = open(path, O_WRONLY | O_CREAT | O_TRUNC, 0644);
         if (fd >= 0) { dup2(fd, 2); close(fd); }
     }
+    /* counter ids cached by VRT_COUNT sites that were first reached in the supervisor (inside ncases()) refer to the
+     * supervisor's dummy slot: give every worker slot the same names at the same positions so that the ids stay valid */
+    {
+        const struct slot *d = &G->slot[MAXW - 1];
+        int i;
+        for (i = S->nctr; i < d->nctr; i++) {
+            memcpy(S->ctrname[i], d->ctrname[i], sizeof(S->ctrname[i]));
+            S->ctr[i] = 0; S->ctrmax[i] = d->ctrmax[i];
+        }
+        if (S->nctr < d->nctr) S->nctr = d->nctr;
+    }
     hang_detector_start();
     if (H->worker_init) H->worker_init();
     if (only_case >= 0) {
